@@ -229,9 +229,6 @@ class Module:
         self.unarmed = []         # (lineno, why) for branches analysed but not armed
         self.all_funcs = []       # every FuncInfo incl. methods, nested
         self._scan(self.tree.body, armed=True)
-        for n in ast.walk(self.tree):
-            for ch in ast.iter_child_nodes(n):
-                ch._parent = n
 
     def _scan(self, body, armed):
         for st in body:
